@@ -10,6 +10,9 @@
 (*   InitRk   : routing keys of 1..3 components with bound-value layouts.  *)
 (*   InitCmp  : ordered pairs of boundary token strings (Murmur3, Random). *)
 (*   InitOrd  : ordered pairs of byte strings (order-preserving).          *)
+(*   InitSeq  : scripts on ONE Query / Batch value: bind, get key, re-bind, *)
+(*              get key, explicit routing key set and cleared, statements   *)
+(*              appended to a batch between calls.                          *)
 (***************************************************************************)
 EXTENDS Token, Json, IOUtils
 
@@ -109,6 +112,51 @@ OrdVals == << <<>>, <<0>>, <<0, 0>>, <<1>>, <<127>>, <<128>>, <<255>>, <<127, 25
 InitOrd == c \in [a : 1 .. Len(OrdVals), b : 1 .. Len(OrdVals)]
 EmitOrd == PrintT(<<"CASE", ToJson([k |-> "ord", a |-> OrdVals[c.a], b |-> OrdVals[c.b],
                                     less |-> BytesLt(OrdVals[c.a], OrdVals[c.b])])>>)
+
+\* ------------------------------------------------------------------ one Query / Batch used repeatedly
+\* three statement shapes (types fixed per statement), three value tuples each
+Shapes == <<
+  [idx |-> <<1>>, ix2 |-> <<1>>,
+   v |-> << <<Comp("blob", 0, <<1, 2>>)>>, <<Comp("blob", 0, <<255>>)>>, <<Comp("blob", 0, <<1, 2, 3>>)>> >>],
+  [idx |-> <<1, 2>>, ix2 |-> <<2, 1>>,
+   v |-> << <<Comp("text", 0, <<97, 98>>), Comp("int", 1, <<>>)>>, <<Comp("text", 0, <<97, 98, 99>>), Comp("int", -1, <<>>)>>,
+            <<Comp("text", 0, <<97, 98>>), Comp("int", 2, <<>>)>> >>],
+  [idx |-> <<3, 1>>, ix2 |-> <<1, 3>>,
+   v |-> << <<Comp("int", 7, <<>>), Comp("bigint", 1, <<>>), Comp("blob", 0, <<0>>)>>,
+            <<Comp("int", 8, <<>>), Comp("bigint", 1, <<>>), Comp("blob", 0, <<0>>)>>,
+            <<Comp("int", 7, <<>>), Comp("bigint", 2, <<>>), Comp("blob", 0, <<0, 0>>)>> >>] >>
+Overrides == << <<9, 9>>, <<0>> >>
+St(op, vals, b, ix) == [op |-> op, vals |-> vals, b |-> b, ix |-> ix]
+Get == St("get", <<>>, <<>>, <<>>)
+Clear == St("clear", <<>>, <<>>, <<>>)
+QueryScript(t, A, B, X) ==
+  LET bA == St("bind", A, <<>>, <<>>)
+      bB == St("bind", B, <<>>, <<>>)
+      rX == St("route", <<>>, X, <<>>) IN
+  CASE t = 1 -> <<bA, Get, bB, Get>>
+    [] t = 2 -> <<bA, Get, bB, Get, bA, Get>>
+    [] t = 3 -> <<bA, Get, rX, Get, Clear, Get>>
+    [] t = 4 -> <<rX, Get, Clear, bA, Get, bB, Get>>
+    [] t = 5 -> <<bA, Get, Get, bB, Get, Get>>
+    [] t = 6 -> <<bA, bB, Get, rX, Clear, Get, bA, Get>>
+BatchScript(t, A, B, ixA, ixB) ==
+  LET aA == St("add", A, <<>>, ixA)
+      aB == St("add", B, <<>>, ixB) IN
+  CASE t = 1 -> <<Get, aA, Get, aB, Get>>
+    [] t = 2 -> <<aA, aB, Get, aA, Get>>
+    [] OTHER -> <<aB, Get, aA, Get>>
+InitSeq ==
+  c \in {x \in [obj : {"query", "batch"}, t : 1 .. 6, sh : 1 .. 3, a : 1 .. 3, b : 1 .. 3, o : 1 .. 2] :
+           /\ x.a # x.b
+           /\ (x.obj = "batch" => x.t <= 3 /\ x.o = 1)}
+SeqSteps(x) ==
+  LET sh == Shapes[x.sh] IN
+  IF x.obj = "query" THEN QueryScript(x.t, sh.v[x.a], sh.v[x.b], Overrides[x.o])
+  ELSE IF x.t = 3 THEN BatchScript(3, sh.v[x.a], sh.v[x.b], sh.idx, sh.ix2)
+  ELSE BatchScript(x.t, sh.v[x.a], sh.v[x.b], sh.idx, sh.ix2)
+EmitSeq == LET sh == Shapes[c.sh] IN
+  PrintT(<<"CASE", ToJson([k |-> "rkseq", obj |-> c.obj, idx |-> sh.idx, steps |-> SeqSteps(c),
+                           outs |-> SeqExpected(c.obj, SeqSteps(c), sh.idx)])>>)
 
 Next == UNCHANGED c
 
